@@ -844,6 +844,9 @@ class Interp:
 
     def dict_native(self, recv, nm, args, kwargs, native):
         """a C-level dict/set method on a native container, some argument symbolic"""
+        if isinstance(recv, dict) and nm in ("__init__", "update", "__ior__"):
+            # one-shot iterators of pairs are materialised so that their keys can be inspected
+            args = tuple(list(a) if type(a) in (_LIST_ITER, _TUPLE_ITER) or isinstance(a, types.GeneratorType) else a for a in args)
         if isinstance(recv, dict):
             sh = self.shadow(recv)
             if sh is None:
